@@ -24,8 +24,8 @@ a contract that enters the state through `DeployedContracts`, or about a class; 
 0x1/0x2 (existence implementation defined) have their own theorems. The model's node has no pruner
 and no retention floor: all statements are about an UNPRUNED node (C16 owns pruning).
 
-Variants. `Cfg.current` = the tree (`leafFix` b4efaf4 and `histOrderFix` 904a370 applied,
-`sysProbeFix` proposed only). Theorems named `*_before_<commit>` are regression witnesses for
+Variants. `Cfg.current` / `legacyBackend` = the tree (`leafFix` b4efaf4, `histOrderFix` 904a370 and
+`dupDeclFix` 7460746 applied; `sysProbeFix`, `migValFix` proposed only). Theorems named `*_before_<commit>` are regression witnesses for
 defects that are fixed in the tree; `*_asFound_counterexample` are defects still in the tree.
 -/
 namespace Juno.C03.Props
@@ -56,9 +56,9 @@ theorem valid_history_runs (cfg : Cfg) (hmf : cfg.migValFix = false) (ops : List
       ops (Node.init (newBackend cfg)) (ninv_init cfg) minv_init trivial h
   · exact run_progress legacyBackend rfl LInv
       (fun ch s s' d hI hd hu => linv_store ch s s' d hI hd hu)
-      (fun d rest s s' hI hr => linv_revert d rest s s' hI hr)
+      (fun d rest s s' hI hr => linv_revert true d rest s s' hI hr)
       (fun ch s d hI hv => legacy_update_succeeds ch s d hI hv)
-      (fun d rest s hI hv => legacy_revert_succeeds d rest s hI hv)
+      (fun d rest s hI hv => legacy_revert_succeeds true d rest s hI hv)
       ops (Node.init legacyBackend) linv_init minv_init trivial h
 
 /-- NEW BACKEND, views by number: after any history, for every retained block `n`, every contract
@@ -206,7 +206,7 @@ theorem legacy_read_correct (ops : List Op) (nd : Node LState)
     nd.read legacyBackend (.num n) q = some ((absAt nd.chain n).read q) := by
   have hinv := run_invariant legacyBackend LInv
     (fun ch s s' d hI hd hu => linv_store ch s s' d hI hd hu)
-    (fun d rest s s' hI hr => linv_revert d rest s s' hI hr)
+    (fun d rest s s' hI hr => linv_revert true d rest s s' hI hr)
     ops (Node.init legacyBackend) nd linv_init hwf hrun
   have hidx := run_idxInv _ ops _ nd (idxInv_init _) hfr hrun
   simp only [Node.read, resolve_num _ nd hidx n hn]
@@ -223,7 +223,7 @@ theorem legacy_head_read_correct (ops : List Op) (nd : Node LState)
     (∀ a k, nd.read legacyBackend .head (.storage a k) = some (.ok ((absOf nd.chain).stor a k))) := by
   have hinv := run_invariant legacyBackend LInv
     (fun ch s s' d hI hd hu => linv_store ch s s' d hI hd hu)
-    (fun d rest s s' hI hr => linv_revert d rest s s' hI hr)
+    (fun d rest s s' hI hr => linv_revert true d rest s s' hI hr)
     ops (Node.init legacyBackend) nd linv_init hwf hrun
   have hemp : nd.blocks.isEmpty = false := by cases h : nd.blocks <;> simp_all
   have h := linv_headRead nd.chain nd.st hinv
@@ -249,7 +249,7 @@ theorem legacy_system_storage_read (ops : List Op) (nd : Node LState)
       nd.read legacyBackend (.num n) (.storage a k) = some (.ok ((absAt nd.chain n).stor a k))) := by
   have hinv := run_invariant legacyBackend LInv
     (fun ch s s' d hI hd hu => linv_store ch s s' d hI hd hu)
-    (fun d rest s s' hI hr => linv_revert d rest s s' hI hr)
+    (fun d rest s s' hI hr => linv_revert true d rest s s' hI hr)
     ops (Node.init legacyBackend) nd linv_init hwf hrun
   have h := linv_histRead_storage_any nd.chain nd.st hinv n a k
   have hidx := run_idxInv _ ops _ nd (idxInv_init _) hfr hrun
@@ -484,15 +484,18 @@ theorem casm_migration_foreign_hash_counterexample :
       (fun nd => (nd.readCasm legacyBackend (.num 1) 0x51, nd.readCasm legacyBackend .head 0x51)) =
       some (some (.ok 0xb1), some (.ok 0xb1)) := by decide
 
-/-- BACKENDS DISAGREE on a block that lists a Cairo-0 class twice (`DeclaredV0Classes` is a slice):
-both store it, the new backend reverts it, the legacy `removeDeclaredClasses` fails on the second
-entry ("get class …: key not found") — the node cannot revert its head (C04's property; recorded
-here because `Diff.WF` excludes such diffs and the model follows the code on them). -/
-theorem legacy_revert_duplicate_declaration_counterexample :
+/-- REGRESSION WITNESS, fixed by 7460746 (core/deprecatedstate `removeDeclaredClasses` now looks at a
+repeated hash once). A block that lists a Cairo-0 class twice (`DeclaredV0Classes` is a slice) is
+stored by both backends and reverted by the new one; before the fix the legacy backend could not
+revert it (the second look-up read the transaction the first had deleted from: "get class …: key
+not found"), the tree's legacy backend can. RevertHead is C04's property; recorded here because
+the model follows the code on such diffs (`Diff.WF` excludes them). -/
+theorem legacy_revert_duplicate_declaration_before_7460746 :
     let ops : List Op := [.store 1 { Diff.empty with declared0 := [0xd100, 0xd100] }, .revert]
     (run (newBackend Cfg.current) (Node.init (newBackend Cfg.current)) ops).isSome = true ∧
-    (run legacyBackend (Node.init legacyBackend) (ops.take 1)).isSome = true ∧
-    (run legacyBackend (Node.init legacyBackend) ops).isSome = false := by decide
+    (run (legacyBackendOf false false) (Node.init (legacyBackendOf false false)) (ops.take 1)).isSome = true ∧
+    (run (legacyBackendOf false false) (Node.init (legacyBackendOf false false)) ops).isSome = false ∧
+    (run legacyBackend (Node.init legacyBackend) ops).isSome = true := by decide
 
 /-! ### non-vacuity: the hypotheses are satisfiable by histories that exercise the encodings -/
 
